@@ -73,6 +73,10 @@ class Runner:
             return MLPActorCriticPolicy(self.env0, feature_size=8, feature_width=8, value_width=8, action_width=8, key=jr.key(seed), **dict(self.cls.get("mlp_kwargs", {})))
         if self.ptype == "mlp_q":
             return MLPQPolicy(self.env0, epsilon=self.cls["epsilon"], width_size=8, depth=1, key=jr.key(seed))
+        if self.ptype == "mlp_sac":
+            from lerax.policy import MLPSACPolicy
+
+            return MLPSACPolicy(self.env0, feature_size=8, width_size=8, depth=1, key=jr.key(seed))
         raise ValueError(self.ptype)
 
     # ------------------------------------------------------------------ simulated walk
@@ -119,6 +123,59 @@ class Runner:
         _, outs = jax.lax.scan(step, (env_state, pstate), jr.split(k2, L))
         return outs
 
+    def _walk_sac_impl(self, env, policy, key):
+        """SAC policy (continuous actions, no masks): key-less = mode of the law it reports, keyed log-prob = that law's log-prob."""
+        K, L = self.K, self.L
+
+        def step(env_state, k):
+            k_obs, k_q, k_step = jr.split(k, 3)
+            obs = env.observation(env_state, key=k_obs)
+            keys = jr.split(k_q, K)
+            _, a0 = policy(None, obs)
+            _, a0b = policy(None, obs)
+            _, dist = policy.action_distribution(None, obs)
+            _, ak = jax.vmap(lambda kk: policy(None, obs, key=kk))(keys)
+            _, a_s, lp_s = jax.vmap(lambda kk: policy.action_and_log_prob(None, obs, key=kk))(keys)
+            lp_re = jax.vmap(lambda a: jnp.sum(dist.log_prob(a)))(a_s)
+            nstate, _, _, _, _, _ = env.step(env_state, ak[0], key=k_step)
+            return nstate, {"keyless": a0, "keyless2": a0b, "mode": dist.mode(), "keyed": ak, "alp_a": a_s, "alp_lp": lp_s, "lp_re": lp_re}
+
+        k0, k2 = jr.split(key)
+        _, outs = jax.lax.scan(step, env.initial(key=k0), jr.split(k2, L))
+        return outs
+
+    def _exec_sac(self, plan, env, policy) -> RunResult:
+        res = RunResult(Trace())
+        if getattr(self, "_walk_sac", None) is None:
+            self._walk_sac = eqx.filter_jit(self._walk_sac_impl)
+        lo, hi = np.asarray(env.action_space.low, dtype=np.float64), np.asarray(env.action_space.high, dtype=np.float64)
+        for op in plan["ops"]:
+            outs = jax.device_get(self._walk_sac(env, policy, jr.key(op["key"])))
+            res.trace.ev("op", op="walk_sac", key=op["key"])
+            for t in range(self.L):
+                a0, a0b, mode = (np.asarray(outs[k][t], dtype=np.float64) for k in ("keyless", "keyless2", "mode"))
+                if not np.array_equal(a0, a0b):
+                    res.fail("C16", "keyless_is_mode", "keyless_sac_action_not_deterministic", t=t)
+                elif not np.allclose(a0, mode, rtol=0, atol=1e-5 * float(np.max(hi - lo))):
+                    res.fail("C16", "keyless_is_mode", "keyless_sac_action_not_the_mode_of_the_reported_law", t=t, got=a0.tolist(), mode=mode.tolist())
+                else:
+                    res.ok("C16", "keyless_is_mode")
+                a = np.asarray(outs["alp_a"][t], dtype=np.float64).reshape(self.K, -1)
+                lp, lp_re = np.asarray(outs["alp_lp"][t], dtype=np.float64), np.asarray(outs["lp_re"][t], dtype=np.float64)
+                # away from the bounds (the squashing Jacobian loses precision where tanh saturates)
+                inner = np.all((a > lo + 0.02 * (hi - lo)) & (a < hi - 0.02 * (hi - lo)), axis=1) & np.isfinite(lp) & np.isfinite(lp_re)
+                bad = inner & (np.abs(lp - lp_re) > 1e-3 * np.maximum(1.0, np.abs(lp_re)))
+                if np.any(bad):
+                    i = int(np.argmax(bad))
+                    res.fail("C16", "keyed_logprob_of_returned", "sac_logprob_not_of_returned_action", t=t, got=float(lp[i]), expected=float(lp_re[i]))
+                else:
+                    res.ok("C16", "keyed_logprob_of_returned", int(inner.sum()))
+                keyed = np.asarray(outs["keyed"][t], dtype=np.float64).reshape(self.K, -1)
+                if len({row.tobytes() for row in keyed}) < min(self.K, 4):
+                    res.fail("C16", "keyed_samples_follow_reported_law", "keyed_sac_actions_do_not_vary_with_the_key", t=t)
+            res.steps += self.L
+        return res
+
     # ------------------------------------------------------------------ plans
 
     def gen(self, rng, prop: str) -> dict:
@@ -162,6 +219,8 @@ class Runner:
             return eqx.tree_at(lambda p: p.q, self.policy0, jnp.asarray(pp["q"], dtype=float))
         pol = self._make_policy(pp["init_seed"])
         sc = float(pp["scale"])
+        if self.ptype == "mlp_sac":
+            return pol
         if sc != 1.0:
             # scale every floating leaf of the last layers: large logit gaps / exact ties (0)
             if self.ptype == "mlp_ac":
@@ -183,6 +242,8 @@ class Runner:
             return res
         env = with_tables(self.env0, plan["world"])
         policy = self._policy_for(plan)
+        if self.ptype == "mlp_sac":
+            return self._exec_sac(plan, env, policy)
         mdp = RefMDP(self.kind, self.comps, plan["world"])
         E = res.events
         is_q = self.ptype in ("qtable", "mlp_q")
